@@ -475,4 +475,117 @@ theorem exchange_roles {o a : Pc} {ex : Exchange} (_ho : WF o) (ha : WF a) (hp :
       · rw [h1]; exact hid
       · rw [h1, hsEq hk, hrr]
 
+/-! ## set-up operations keep the role invariant -/
+
+theorem RWF.of_setup {pc pc' : Pc} {r : Role} (h : RWF pc r) (hT : TExist pc') (hr : RoleSame pc.transports pc'.transports)
+    (hk : pc'.keys = pc.keys)
+    (hts : ∀ t' ∈ pc'.transceivers, t'.mid ≠ none → ∃ t ∈ pc.transceivers, t.mid ≠ none ∧ t'.transport = t.transport)
+    (hs : ∀ s', pc'.sctp = some s' → s'.mid ≠ none → ∃ s, pc.sctp = some s ∧ s.mid ≠ none ∧ s'.transport = s.transport) :
+    RWF pc' r := by
+  refine ⟨hT, hr.rolesU h.uniform, ?_, ?_, fun h0 => roleSame_all_auto hr (h.fresh (by rw [← hk]; exact h0))⟩
+  · intro t' ht' hm
+    obtain ⟨t, ht, hm0, he⟩ := hts t' ht' hm
+    rw [he, roleOf_eq, hr.lookup, ← roleOf_eq]; exact h.owners t ht hm0
+  · intro s' hs' hm
+    obtain ⟨s, hs0, hm0, he⟩ := hs s' hs' hm
+    rw [he, roleOf_eq, hr.lookup, ← roleOf_eq]; exact h.sctpOwner s hs0 hm0
+
+theorem rwf_createTransceiver {pc : Pc} {r : Role} (h : RWF pc r) (d : Dir) (k : Kind) (tr : Bool) : RWF (pc.createTransceiver d k tr) r := by
+  obtain ⟨n, hn, h1, _⟩ := createTransceiver_new pc d k tr
+  obtain ⟨f1, _, f3⟩ := createTransceiver_frame pc d k tr
+  refine h.of_setup (texist_createTransceiver h.texist d k tr) (roleSame_createTransceiver pc d k tr) (keys_of_slots f1) ?_ ?_
+  · intro t' ht' hm
+    rw [hn] at ht'
+    rcases List.mem_append.mp ht' with h2 | h2
+    · exact ⟨t', h2, hm, rfl⟩
+    · simp at h2; subst h2; exact absurd h1 hm
+  · intro s' hs' hm
+    rw [f3] at hs'
+    exact ⟨s', hs', hm, rfl⟩
+
+theorem rwf_addTrack {pc : Pc} {r : Role} (h : RWF pc r) (k : Kind) : RWF (pc.addTrack k) r := by
+  unfold Pc.addTrack
+  split
+  · rename_i ts hupd
+    refine h.of_setup (pc' := { pc with transceivers := ts }) ?_ (RoleSame.refl _) rfl ?_ (fun s' hs' hm => ⟨s', hs', hm, rfl⟩)
+    · have := texist_addTrack h.texist k
+      unfold Pc.addTrack at this
+      rw [hupd] at this
+      exact this
+    · intro t' ht' hm
+      rcases updFirst_mem' hupd t' ht' with h1 | ⟨x, hx, _, rfl⟩
+      · exact ⟨t', h1, hm, rfl⟩
+      · exact ⟨x, hx, hm, rfl⟩
+  · exact rwf_createTransceiver h _ _ _
+
+theorem rwf_createDataChannel {pc : Pc} {r : Role} (h : RWF pc r) : RWF pc.createDataChannel r := by
+  unfold Pc.createDataChannel
+  split
+  · exact h
+  · rename_i hs
+    have hnone : pc.sctp = none := by simpa using hs
+    obtain ⟨f1, f2, _⟩ := createSctp_frame pc
+    obtain ⟨s0, hs0, hmid0⟩ := createSctp_sctp pc
+    refine h.of_setup (texist_createSctp h.texist) (roleSame_createSctp pc) (keys_of_slots f2) ?_ ?_
+    · intro t' ht' hm
+      rw [f1] at ht'
+      exact ⟨t', ht', hm, rfl⟩
+    · intro s' hs' hm
+      rw [hs0] at hs'; cases hs'
+      exact absurd hmid0 hm
+
+theorem rwf_trySetCodecPreferences {pc : Pc} {r : Role} (h : RWF pc r) (i : Nat) (caps : List Cap) :
+    RWF (pc.trySetCodecPreferences i caps) r := by
+  have hT := texist_trySetCodecPreferences h.texist i caps
+  have hR := (roleSame_setup pc).2.2.2.1 i caps
+  unfold Pc.trySetCodecPreferences at hT hR ⊢
+  cases hs : pc.setCodecPreferences i caps with
+  | ok pc' =>
+    rw [hs] at hT hR
+    simp only at hT hR ⊢
+    unfold Pc.setCodecPreferences at hs
+    split at hs
+    · cases hs
+    · rename_i t ht
+      split at hs
+      · cases hs
+        refine h.of_setup hT hR rfl ?_ (fun s' hs' hm => ⟨s', hs', hm, rfl⟩)
+        intro t' ht' hm
+        rcases mem_set ht' with rfl | h1
+        · exact ⟨t, List.mem_of_getElem? ht, hm, rfl⟩
+        · exact ⟨t', h1, hm, rfl⟩
+      · cases hs
+  | valueError => exact h
+  | crash k => exact h
+  | hang => exact h
+
+theorem rwf_trySetDirection {pc : Pc} {r : Role} (h : RWF pc r) (i : Nat) (d : Dir) : RWF (pc.trySetDirection i d) r := by
+  have hT := texist_trySetDirection h.texist i d
+  have hR := (roleSame_setup pc).2.2.2.2 i d
+  unfold Pc.trySetDirection at hT hR ⊢
+  cases hs : pc.setDirection i d with
+  | ok pc' =>
+    rw [hs] at hT hR
+    simp only at hT hR ⊢
+    unfold Pc.setDirection at hs
+    split at hs
+    · cases hs
+    · rename_i t ht
+      cases hs
+      refine h.of_setup hT hR rfl ?_ (fun s' hs' hm => ⟨s', hs', hm, rfl⟩)
+      intro t' ht' hm
+      rcases mem_set ht' with rfl | h1
+      · exact ⟨t, List.mem_of_getElem? ht, hm, rfl⟩
+      · exact ⟨t', h1, hm, rfl⟩
+  | valueError => exact h
+  | crash k => exact h
+  | hang => exact h
+
+theorem rwf_new (p : Policy) (r : Role) : RWF (Pc.new p) r :=
+  ⟨texist_new p, fun x hx => by simp [Pc.new] at hx, fun t ht => by simp [Pc.new] at ht, fun s hs => by simp [Pc.new] at hs,
+    fun _ x hx => by simp [Pc.new] at hx⟩
+
+theorem rolePair_new (p1 p2 : Policy) : RolePair (Pc.new p1) (Pc.new p2) :=
+  ⟨.server, .client, .inr ⟨rfl, rfl⟩, rwf_new p1 _, rwf_new p2 _⟩
+
 end Aiortc.Model.Negotiate
